@@ -1079,14 +1079,14 @@ def gen_replays(ctx):
             out.append(dict(stream="vs", entry=entry, seed=rng.randint(0, 10 ** 9)))
     for _ in range(ctx.budget(15, 150)):
         out.append(dict(stream="cog", seed=rng.randint(0, 10 ** 9)))
-    for _ in range(ctx.budget(40, 1200)):
+    for _ in range(ctx.budget(40, 800)):
         out.append(dict(stream="verdict", seed=rng.randint(0, 10 ** 9), stub=rng.random() < 0.6))
     for _ in range(ctx.budget(30, 600)):
         out.append(dict(stream="volume", seed=rng.randint(0, 10 ** 9)))
     for scenario in SCENARIOS:
         for _ in range(ctx.budget(2, 20)):
             out.append(dict(stream="system", seed=rng.randint(0, 10 ** 9), scenario=scenario))
-    for _ in range(ctx.budget(40, 1800)):
+    for _ in range(ctx.budget(40, 900)):
         out.append(dict(stream="system", seed=rng.randint(0, 10 ** 9)))
     probe = sorted(s for s in FINDING_SHAPES if enabled(s))
     for rep in out:
